@@ -1,4 +1,5 @@
 import AranyaV.Props.C22
+import AranyaV.Proofs.C23Whole
 /-!
 # C23 — Untaken operands and branches are never evaluated
 
@@ -24,18 +25,9 @@ Two kinds of theorems, both about `Model.Compile` code on `Model.LangVM`:
 namespace AranyaV.Lang
 open AranyaV.Gen.Lang
 
-/-- execution that records the pc of every executed instruction -/
-inductive StepsVia (m : Machine) : VM → List Nat → VM → Prop where
-  | refl (s : VM) : StepsVia m s [] s
-  | next {s s' s'' : VM} {ps : List Nat} : step m s = .running s' → StepsVia m s' ps s'' → StepsVia m s (s.pc :: ps) s''
-
-theorem StepsVia.steps {m : Machine} {s s' : VM} {ps} (h : StepsVia m s ps s') : Steps m s s' := by
-  induction h with
-  | refl => exact .refl _
-  | next h _ ih => exact .next h ih
-
-/-- the code range `[lo, lo + len)` -/
-def InRange (lo len pc : Nat) : Prop := lo ≤ pc ∧ pc < lo + len
+-- `StepsVia` (execution that records the pc of every executed instruction), `InRange lo len pc`
+-- (the code range `[lo, lo + len)`) and the run descriptions `ChainRun` / `ValsRun` / `TestsRun` used
+-- by the whole-construct theorems at the end of this file are defined in `Proofs/C23Whole.lean`.
 
 variable (S : Sim)
 
@@ -602,5 +594,380 @@ example : CodeAt exS.labels exS.m.prog 0 (compileExpr exS.m.p.structs 0 0 (.and 
   simp [CodeAt]
 example : (compileExpr [] 0 0 (.le (.call 1 [.var 10, .int 1]) (.int 5))).code.length = 6 := by decide
 example : (compileExpr [] 9 2 (.not (.eq (.var 10) (.int 3)))).code.length = 4 := by decide
+
+
+/-! ## whole-construct pc traces -/
+
+/-- **whole `if / else if / … / else` statement, branch `k` taken** (any chain length, any `k`).
+`hR` describes the run: the conditions of branches `0..k-1` have runs leaving `false`, the condition
+of branch `k` a run leaving `true`, its body a run from behind `Block` to before `End`.  Then the VM
+goes from the statement's entry `wp` to its exit `wp + tot` executing exactly the trace `ps`, and
+every pc of `ps` is a pc of one of these sub-runs (`sub`: conditions evaluated so far, the taken
+body) or a glue pc that lies outside the body region of every other branch and outside the else
+block. -/
+theorem ifS_trace_taken (brs : List (Expr × List Stmt)) (hasElse : Bool) (els : List Stmt) (wp c : Nat)
+    (σ : List Val) (env : Env) (fr : List Env) (K : List Nat) (lg : Log) (k : Nat) (ps sub gl : List Nat) (t : VM)
+    (hcode : CodeAt S.labels S.m.prog wp (compileStmt S.m.p.structs wp c (.ifS brs hasElse els)).code)
+    (hdefs : DefsOk S.labels (compileStmt S.m.p.structs wp c (.ifS brs hasElse els)).defs)
+    (hR : ChainRun S σ env fr K (wp + (compileStmt S.m.p.structs wp c (.ifS brs hasElse els)).code.length)
+      wp (c + 1) brs lg true k ps sub gl t) :
+    let tot := (compileStmt S.m.p.structs wp c (.ifS brs hasElse els)).code.length
+    let lenB := (compileBranches S.m.p.structs wp (c + 1) (Label.anon c) brs).code.length
+    StepsVia S.m ⟨σ, env :: fr, K, wp, lg⟩ ps t ∧ t.pc = wp + tot ∧
+    ∀ pc ∈ ps, pc ∈ sub ∨
+      ((∀ (i : Nat) (r : Nat × Nat), i ≠ k → (branchRegions S.m.p.structs wp (c + 1) brs)[i]? = some r → ¬ InRange r.1 r.2 pc) ∧
+        ¬ InRange (wp + lenB) (tot - lenB) pc) := by
+  intro tot lenB
+  have hend : lookupLabel S.labels (Label.anon c) = some (wp + tot) := by
+    cases hasElse <;>
+      simp only [compileStmt, if_true, Bool.false_eq_true, if_false, defsOk_append, defsOk_cons, DefsOk.nil, and_true] at hdefs <;>
+      simpa [tot, compileStmt, Nat.add_assoc] using hdefs.2
+  have hcB : CodeAt S.labels S.m.prog wp (compileBranches S.m.p.structs wp (c + 1) (Label.anon c) brs).code := by
+    simp only [compileStmt, codeAt_append] at hcode; exact hcode.1
+  have hdB : DefsOk S.labels (compileBranches S.m.p.structs wp (c + 1) (Label.anon c) brs).defs := by
+    simp only [compileStmt, defsOk_append] at hdefs; exact hdefs.1.1
+  refine ⟨chain_via S hend hR hcB hdB, chain_final_taken hR, ?_⟩
+  intro pc hpc
+  rcases chain_sub_or_glue hR pc hpc with h | h
+  · exact Or.inl h
+  · refine Or.inr ⟨fun i r hik hr => chain_glue_untaken hR pc h i r hr (fun _ => hik), ?_⟩
+    have := chain_glue_bounds (Label.anon c) hR pc h
+    simp only [InRange]; omega
+
+/-- **whole `if / else if / … / else` statement, the else block taken**: every condition has a run
+leaving `false` (`hR`, `taken = false`), the else block's statements a run `psE`.  The VM executes
+exactly `ps ++ [Block] ++ psE ++ [End]` from entry to exit, and every pc of it is a pc of a sub-run
+(the conditions, the else statements) or a glue pc outside the body region of EVERY branch. -/
+theorem ifS_trace_else (brs : List (Expr × List Stmt)) (els : List Stmt) (wp c : Nat)
+    (σ : List Val) (env : Env) (fr : List Env) (K : List Nat) (lg : Log) (k : Nat) (ps sub gl : List Nat) (t : VM)
+    (psE : List Nat) (σ' : List Val) (b : List (Nat × Val)) (env' : Env) (fr' : List Env) (K' : List Nat) (lg2 : Log)
+    (hcode : CodeAt S.labels S.m.prog wp (compileStmt S.m.p.structs wp c (.ifS brs true els)).code)
+    (hdefs : DefsOk S.labels (compileStmt S.m.p.structs wp c (.ifS brs true els)).defs)
+    (hR : ChainRun S σ env fr K (wp + (compileStmt S.m.p.structs wp c (.ifS brs true els)).code.length)
+      wp (c + 1) brs lg false k ps sub gl t) :
+    let tot := (compileStmt S.m.p.structs wp c (.ifS brs true els)).code.length
+    let B := compileBranches S.m.p.structs wp (c + 1) (Label.anon c) brs
+    let E := compileStmts S.m.p.structs (wp + B.code.length + 1) B.c els
+    StepsVia S.m ⟨σ, ([] :: env) :: fr, K, wp + B.code.length + 1, t.log⟩ psE
+      ⟨σ', (b :: env') :: fr', K', wp + B.code.length + 1 + E.code.length, lg2⟩ →
+    StepsVia S.m ⟨σ, env :: fr, K, wp, lg⟩ (ps ++ [wp + B.code.length] ++ psE ++ [wp + B.code.length + 1 + E.code.length])
+      ⟨σ', env' :: fr', K', wp + tot, lg2⟩ ∧
+    ∀ pc ∈ ps ++ [wp + B.code.length] ++ psE ++ [wp + B.code.length + 1 + E.code.length], pc ∈ sub ++ psE ∨
+      ∀ (i : Nat) (r : Nat × Nat), (branchRegions S.m.p.structs wp (c + 1) brs)[i]? = some r → ¬ InRange r.1 r.2 pc := by
+  intro tot B E hE
+  have htot : tot = B.code.length + (E.code.length + 2) := by
+    simp only [tot, B, E, compileStmt, if_true]; lens
+  have hend : lookupLabel S.labels (Label.anon c) = some (wp + tot) := by
+    simp only [compileStmt, if_true, defsOk_append, defsOk_cons, DefsOk.nil, and_true] at hdefs
+    simpa [tot, compileStmt, Nat.add_assoc] using hdefs.2
+  simp only [compileStmt, if_true, codeAt_append, codeAt_cons, CodeAt.nil, and_true, res] at hcode
+  obtain ⟨hcB, ⟨hblk, _⟩, hE0⟩ := hcode
+  have hE' : S.m.prog[wp + B.code.length + 1 + E.code.length]? = some .End :=
+    prog_at_cast hE0 (by simp only [B, E]; lens)
+  have hdB : DefsOk S.labels B.defs := by
+    simp only [compileStmt, defsOk_append] at hdefs; exact hdefs.1.1
+  have h1 := chain_via S hend hR hcB hdB
+  obtain ⟨ht, _⟩ := chain_final_none (Label.anon c) hR
+  rw [ht] at h1
+  have h2 : StepsVia S.m ⟨σ, env :: fr, K, wp + B.code.length, t.log⟩ [wp + B.code.length]
+      ⟨σ, ([] :: env) :: fr, K, wp + B.code.length + 1, t.log⟩ := via_cons (step_block hblk) (.refl _)
+  have h3 : StepsVia S.m ⟨σ', (b :: env') :: fr', K', wp + B.code.length + 1 + E.code.length, lg2⟩
+      [wp + B.code.length + 1 + E.code.length] ⟨σ', env' :: fr', K', wp + tot, lg2⟩ :=
+    via_cons (step_end hE') (via_pc (.refl _) (by omega))
+  refine ⟨((h1.trans h2).trans hE).trans h3, ?_⟩
+  intro pc hpc
+  simp only [List.mem_append, List.mem_cons, List.not_mem_nil, or_false] at hpc ⊢
+  have hglue : wp + B.code.length ≤ pc →
+      ∀ (i : Nat) (r : Nat × Nat), (branchRegions S.m.p.structs wp (c + 1) brs)[i]? = some r → ¬ InRange r.1 r.2 pc := by
+    intro hge i r hr
+    have hub : r.1 + r.2 ≤ wp + B.code.length :=
+      branchRegions_ub S.m.p.structs (Label.anon c) brs wp (c + 1) r (List.mem_of_getElem? hr)
+    simp only [InRange]; omega
+  rcases hpc with ((hp | hp) | hp) | hp
+  · rcases chain_sub_or_glue hR pc hp with h | h
+    · exact Or.inl (Or.inl h)
+    · exact Or.inr (fun i r hr => chain_glue_untaken hR pc h i r hr (fun h => by cases h))
+  · exact Or.inr (hglue (by omega))
+  · exact Or.inl (Or.inr hp)
+  · exact Or.inr (hglue (by omega))
+
+/-- **whole `if / else if / …` statement without else, no branch taken**: every condition has a run
+leaving `false`; the VM executes exactly `ps` from entry to exit and no glue pc lies in the body
+region of any branch. -/
+theorem ifS_trace_none (brs : List (Expr × List Stmt)) (els : List Stmt) (wp c : Nat)
+    (σ : List Val) (env : Env) (fr : List Env) (K : List Nat) (lg : Log) (k : Nat) (ps sub gl : List Nat) (t : VM)
+    (hcode : CodeAt S.labels S.m.prog wp (compileStmt S.m.p.structs wp c (.ifS brs false els)).code)
+    (hdefs : DefsOk S.labels (compileStmt S.m.p.structs wp c (.ifS brs false els)).defs)
+    (hR : ChainRun S σ env fr K (wp + (compileStmt S.m.p.structs wp c (.ifS brs false els)).code.length)
+      wp (c + 1) brs lg false k ps sub gl t) :
+    StepsVia S.m ⟨σ, env :: fr, K, wp, lg⟩ ps
+      ⟨σ, env :: fr, K, wp + (compileStmt S.m.p.structs wp c (.ifS brs false els)).code.length, t.log⟩ ∧
+    ∀ pc ∈ ps, pc ∈ sub ∨
+      ∀ (i : Nat) (r : Nat × Nat), (branchRegions S.m.p.structs wp (c + 1) brs)[i]? = some r → ¬ InRange r.1 r.2 pc := by
+  have hend : lookupLabel S.labels (Label.anon c) =
+      some (wp + (compileStmt S.m.p.structs wp c (.ifS brs false els)).code.length) := by
+    simp only [compileStmt, Bool.false_eq_true, if_false, defsOk_append, defsOk_cons, DefsOk.nil, and_true] at hdefs
+    simpa [compileStmt, Nat.add_assoc] using hdefs.2
+  have hcB : CodeAt S.labels S.m.prog wp (compileBranches S.m.p.structs wp (c + 1) (Label.anon c) brs).code := by
+    simp only [compileStmt, codeAt_append] at hcode; exact hcode.1
+  have hdB : DefsOk S.labels (compileBranches S.m.p.structs wp (c + 1) (Label.anon c) brs).defs := by
+    simp only [compileStmt, defsOk_append] at hdefs; exact hdefs.1.1
+  have h1 := chain_via S hend hR hcB hdB
+  obtain ⟨ht, _⟩ := chain_final_none (Label.anon c) hR
+  rw [ht] at h1
+  refine ⟨via_pc h1 (by simp [compileStmt]), ?_⟩
+  intro pc hpc
+  rcases chain_sub_or_glue hR pc hpc with h | h
+  · exact Or.inl h
+  · exact Or.inr (fun i r hr => chain_glue_untaken hR pc h i r hr (fun h => by cases h))
+
+/-- **whole `match` expression, arm `k` taken** (any number of arms, any `k`).
+Hypotheses: a run of the scrutinee (trace `psS`) leaving `sv`; a description `hT` of the dispatch —
+every test of the arms before `k` misses, arm `k` is the default arm or has a hit, literal
+patterns being evaluated by sub-runs; arm `k` is `(pat, body)` and its block starts at `wpk`
+(`armStarts`); the arm's binding succeeds; a run `psB` of the body.  Then the VM goes from the
+entry `wp` to the exit `wp + |code|` executing exactly
+`psS ++ psT ++ [Block, binding] ++ psB ++ [End, Jump]`, and every pc of this trace is a pc of one
+of the sub-runs (scrutinee, literal patterns evaluated so far, taken body) or a glue pc inside
+the tests or inside arm `k`'s own block — never inside the block of another arm. -/
+theorem match_trace_E (scrut : Expr) (arms : List (Pat × Expr)) (wp c : Nat)
+    (σ : List Val) (env : Env) (fr : List Env) (K : List Nat) (lg lg1 lg2 lg3 : Log) (sv : Val) (psS : List Nat)
+    (k : Nat) (lk : Label) (psT subT glT : List Nat) (pat : Pat) (body : Expr) (wpk ck : Nat) (env' : Env)
+    (psB : List Nat) (σ' : List Val) (b : List (Nat × Val)) (env'' : Env) (fr' : List Env) (K' : List Nat)
+    (hcode : CodeAt S.labels S.m.prog wp (compileExpr S.m.p.structs wp c (.mtch scrut arms)).code)
+    (hdefs : DefsOk S.labels (compileExpr S.m.p.structs wp c (.mtch scrut arms)).defs) :
+    let So := compileExpr S.m.p.structs wp c scrut
+    let wpT := wp + So.code.length
+    let T := compileTestsP S.m.p.structs wpT (So.c + 1) (arms.map (·.1))
+    let wpA := wpT + T.1.code.length
+    let eB := wpk + 1 + (armPre pat).length + (compileExpr S.m.p.structs (wpk + 1 + (armPre pat).length) ck body).code.length
+    let ps := psS ++ (psT ++ List.range' wpk (1 + (armPre pat).length) ++ psB ++ [eB, eB + 1])
+    StepsVia S.m ⟨σ, env :: fr, K, wp, lg⟩ psS ⟨sv :: σ, env :: fr, K, wpT, lg1⟩ →
+    TestsRun S sv σ (env :: fr) K wpT (So.c + 1) (arms.map (·.1)) lg1 k lk psT subT glT lg2 →
+    arms[k]? = some (pat, body) →
+    (armStarts (compileExpr S.m.p.structs) wpA T.1.c arms)[k]? = some (wpk, ck) →
+    bindArm S.m.p ([] :: env) sv pat = some env' →
+    StepsVia S.m ⟨σ, env' :: fr, K, wpk + 1 + (armPre pat).length, lg2⟩ psB ⟨σ', (b :: env'') :: fr', K', eB, lg3⟩ →
+    StepsVia S.m ⟨σ, env :: fr, K, wp, lg⟩ ps
+      ⟨σ', env'' :: fr', K', wp + (compileExpr S.m.p.structs wp c (.mtch scrut arms)).code.length, lg3⟩ ∧
+    ∀ pc ∈ ps, pc ∈ psS ++ subT ++ psB ∨
+      ((InRange wpT T.1.code.length pc ∨ InRange wpk (armLen (compileExpr S.m.p.structs) wpk ck pat body) pc) ∧
+        ∀ (i wi ci : Nat) (pi : Pat) (bi : Expr), i ≠ k →
+          (armStarts (compileExpr S.m.p.structs) wpA T.1.c arms)[i]? = some (wi, ci) → arms[i]? = some (pi, bi) →
+          ¬ InRange wi (armLen (compileExpr S.m.p.structs) wi ci pi bi) pc) := by
+  intro So wpT T wpA eB ps hS hT hk hst hb hB
+  have hlen : wp + (compileExpr S.m.p.structs wp c (.mtch scrut arms)).code.length =
+      wpA + (armsG (compileExpr S.m.p.structs) wpA T.1.c (Label.anon So.c) T.2 arms).code.length := by
+    simp only [compileExpr, compileTestsE_eq, armsE_eq, List.length_append, wpA, wpT, T, So]; omega
+  simp only [compileExpr, compileTestsE_eq, armsE_eq, defsOk_append, defsOk_cons, DefsOk.nil, and_true, codeAt_append] at hcode hdefs
+  obtain ⟨⟨⟨_, _⟩, hdA⟩, hend⟩ := hdefs
+  obtain ⟨⟨_, hcT⟩, hcA0⟩ := hcode
+  have hcA : CodeAt S.labels S.m.prog wpA (armsG (compileExpr S.m.p.structs) wpA T.1.c (Label.anon So.c) T.2 arms).code :=
+    codeAt_cast hcA0 (by simp only [wpA, wpT, T, So]; lens)
+  have hend' : lookupLabel S.labels (Label.anon So.c) =
+      some (wp + (compileExpr S.m.p.structs wp c (.mtch scrut arms)).code.length) := by
+    rw [hlen, hend]
+  obtain ⟨h1, h2⟩ := match_core S (compileExpr S.m.p.structs) arms (Label.anon So.c)
+    (wp + (compileExpr S.m.p.structs wp c (.mtch scrut arms)).code.length) wpT (So.c + 1) sv σ env fr K lg1 lg2 lg3
+    k lk psT subT glT pat body wpk ck env' psB σ' b env'' fr' K' hcT hcA hdA hend' hT hk hst hb hB
+  refine ⟨hS.trans h1, ?_⟩
+  intro pc hpc
+  rcases List.mem_append.mp hpc with hp | hp
+  · exact Or.inl (by simp only [List.mem_append]; exact Or.inl (Or.inl hp))
+  · rcases h2 pc hp with h | h
+    · refine Or.inl ?_
+      simp only [List.mem_append] at h ⊢
+      rcases h with h | h
+      · exact Or.inl (Or.inr h)
+      · exact Or.inr h
+    · exact Or.inr h
+
+/-- **whole `match` statement, arm `k` taken** (any number of arms, any `k`).
+Hypotheses: a run of the scrutinee (trace `psS`) leaving `sv`; a description `hT` of the dispatch —
+every test of the arms before `k` misses, arm `k` is the default arm or has a hit, literal
+patterns being evaluated by sub-runs; arm `k` is `(pat, body)` and its block starts at `wpk`
+(`armStarts`); the arm's binding succeeds; a run `psB` of the body.  Then the VM goes from the
+entry `wp` to the exit `wp + |code|` executing exactly
+`psS ++ psT ++ [Block, binding] ++ psB ++ [End, Jump]`, and every pc of this trace is a pc of one
+of the sub-runs (scrutinee, literal patterns evaluated so far, taken body) or a glue pc inside
+the tests or inside arm `k`'s own block — never inside the block of another arm. -/
+theorem match_trace_S (scrut : Expr) (arms : List (Pat × List Stmt)) (wp c : Nat)
+    (σ : List Val) (env : Env) (fr : List Env) (K : List Nat) (lg lg1 lg2 lg3 : Log) (sv : Val) (psS : List Nat)
+    (k : Nat) (lk : Label) (psT subT glT : List Nat) (pat : Pat) (body : List Stmt) (wpk ck : Nat) (env' : Env)
+    (psB : List Nat) (σ' : List Val) (b : List (Nat × Val)) (env'' : Env) (fr' : List Env) (K' : List Nat)
+    (hcode : CodeAt S.labels S.m.prog wp (compileStmt S.m.p.structs wp c (.mtch scrut arms)).code)
+    (hdefs : DefsOk S.labels (compileStmt S.m.p.structs wp c (.mtch scrut arms)).defs) :
+    let So := compileExpr S.m.p.structs wp c scrut
+    let wpT := wp + So.code.length
+    let T := compileTestsP S.m.p.structs wpT (So.c + 1) (arms.map (·.1))
+    let wpA := wpT + T.1.code.length
+    let eB := wpk + 1 + (armPre pat).length + (compileStmts S.m.p.structs (wpk + 1 + (armPre pat).length) ck body).code.length
+    let ps := psS ++ (psT ++ List.range' wpk (1 + (armPre pat).length) ++ psB ++ [eB, eB + 1])
+    StepsVia S.m ⟨σ, env :: fr, K, wp, lg⟩ psS ⟨sv :: σ, env :: fr, K, wpT, lg1⟩ →
+    TestsRun S sv σ (env :: fr) K wpT (So.c + 1) (arms.map (·.1)) lg1 k lk psT subT glT lg2 →
+    arms[k]? = some (pat, body) →
+    (armStarts (compileStmts S.m.p.structs) wpA T.1.c arms)[k]? = some (wpk, ck) →
+    bindArm S.m.p ([] :: env) sv pat = some env' →
+    StepsVia S.m ⟨σ, env' :: fr, K, wpk + 1 + (armPre pat).length, lg2⟩ psB ⟨σ', (b :: env'') :: fr', K', eB, lg3⟩ →
+    StepsVia S.m ⟨σ, env :: fr, K, wp, lg⟩ ps
+      ⟨σ', env'' :: fr', K', wp + (compileStmt S.m.p.structs wp c (.mtch scrut arms)).code.length, lg3⟩ ∧
+    ∀ pc ∈ ps, pc ∈ psS ++ subT ++ psB ∨
+      ((InRange wpT T.1.code.length pc ∨ InRange wpk (armLen (compileStmts S.m.p.structs) wpk ck pat body) pc) ∧
+        ∀ (i wi ci : Nat) (pi : Pat) (bi : List Stmt), i ≠ k →
+          (armStarts (compileStmts S.m.p.structs) wpA T.1.c arms)[i]? = some (wi, ci) → arms[i]? = some (pi, bi) →
+          ¬ InRange wi (armLen (compileStmts S.m.p.structs) wi ci pi bi) pc) := by
+  intro So wpT T wpA eB ps hS hT hk hst hb hB
+  have hlen : wp + (compileStmt S.m.p.structs wp c (.mtch scrut arms)).code.length =
+      wpA + (armsG (compileStmts S.m.p.structs) wpA T.1.c (Label.anon So.c) T.2 arms).code.length := by
+    simp only [compileStmt, compileTestsS_eq, armsS_eq, List.length_append, wpA, wpT, T, So]; omega
+  simp only [compileStmt, compileTestsS_eq, armsS_eq, defsOk_append, defsOk_cons, DefsOk.nil, and_true, codeAt_append] at hcode hdefs
+  obtain ⟨⟨⟨_, _⟩, hdA⟩, hend⟩ := hdefs
+  obtain ⟨⟨_, hcT⟩, hcA0⟩ := hcode
+  have hcA : CodeAt S.labels S.m.prog wpA (armsG (compileStmts S.m.p.structs) wpA T.1.c (Label.anon So.c) T.2 arms).code :=
+    codeAt_cast hcA0 (by simp only [wpA, wpT, T, So]; lens)
+  have hend' : lookupLabel S.labels (Label.anon So.c) =
+      some (wp + (compileStmt S.m.p.structs wp c (.mtch scrut arms)).code.length) := by
+    rw [hlen, hend]
+  obtain ⟨h1, h2⟩ := match_core S (compileStmts S.m.p.structs) arms (Label.anon So.c)
+    (wp + (compileStmt S.m.p.structs wp c (.mtch scrut arms)).code.length) wpT (So.c + 1) sv σ env fr K lg1 lg2 lg3
+    k lk psT subT glT pat body wpk ck env' psB σ' b env'' fr' K' hcT hcA hdA hend' hT hk hst hb hB
+  refine ⟨hS.trans h1, ?_⟩
+  intro pc hpc
+  rcases List.mem_append.mp hpc with hp | hp
+  · exact Or.inl (by simp only [List.mem_append]; exact Or.inl (Or.inl hp))
+  · rcases h2 pc hp with h | h
+    · refine Or.inl ?_
+      simp only [List.mem_append] at h ⊢
+      rcases h with h | h
+      · exact Or.inl (Or.inr h)
+      · exact Or.inr h
+    · exact Or.inr h
+
+
+
+/-! ### the pc trace is a function of `step`, consistent with `run` -/
+
+/-- a `StepsVia` run with trace `ps` is exactly what the fuelled trace function `runTrace` (which
+iterates `step` and collects the pcs) computes with fuel `|ps|` -/
+theorem trace_function {m : Machine} {s s' : VM} {ps : List Nat} (h : StepsVia m s ps s') :
+    runTrace m ps.length s = (ps, s') := runTrace_of_via h
+
+/-- … and `run` (the model of `RunState::run`) passes through the state reached after these `|ps|` steps -/
+theorem trace_consistent_run {m : Machine} {s s' : VM} {ps : List Nat} (h : StepsVia m s ps s') (k : Nat) :
+    run m (ps.length + k) s = run m k s' := run_of_via h k
+
+/-- a fragment's own label table resolves its own labels when the label names are distinct -/
+theorem defsOk_self : ∀ (defs : List (Label × Nat)), (defs.map (·.1)).Nodup → DefsOk defs defs
+  | [], _ => DefsOk.nil
+  | (l, a) :: rest, h => by
+    simp only [List.map_cons, List.nodup_cons] at h
+    intro q hq
+    simp only [List.mem_cons] at hq
+    rcases hq with rfl | hq
+    · simp [lookupLabel]
+    · have hne : (l == q.1) = false := by
+        simp only [beq_eq_false_iff_ne, ne_eq]
+        intro e; exact h.1 (e ▸ List.mem_map.mpr ⟨q, hq, rfl⟩)
+      have := defsOk_self rest h.2 q hq
+      simpa [lookupLabel, List.find?_cons, hne] using this
+
+/-! ### non-vacuity: a 3-condition `if / else if / else if / else` chain taking the else
+
+`if x == 1 { let y = 100 } else if x == 2 { let y = 200 } else if x == 3 { let y = 300 } else { let y = 400 }`
+with `x = 7` (identifiers x = 10, y = 11), compiled at address 0.  Layout: conditions at 0, 10, 20;
+branch body regions `Block … Jump` at [5,10), [15,20), [25,30); else block at [30,34). -/
+def exBr (k v : Int) : Expr × List Stmt := (.eq (.var 10) (.int k), [.let_ 11 (.int v)])
+def exIf : Stmt := .ifS [exBr 1 100, exBr 2 200, exBr 3 300] true [.let_ 11 (.int 400)]
+def exIfOut : Out := compileStmt [] 0 0 exIf
+def exIfS : Sim :=
+  { m := { prog := exIfOut.code.map (res exIfOut.defs), p := exProg, ffiArity := fun _ _ => none }, labels := exIfOut.defs }
+def exEnv (x : Int) : Env := [[(10, .int x)]]
+
+example : exIfOut.code.length = 34 := by decide
+example : branchRegions [] 0 1 [exBr 1 100, exBr 2 200, exBr 3 300] = [(5, 5), (15, 5), (25, 5)] := by decide
+theorem exIf_code : CodeAt exIfS.labels exIfS.m.prog 0 (compileStmt exIfS.m.p.structs 0 0 exIf).code := by
+  show CodeAt exIfOut.defs (exIfOut.code.map (res exIfOut.defs)) 0 exIfOut.code
+  simp [CodeAt]
+theorem exIf_defs : DefsOk exIfS.labels (compileStmt exIfS.m.p.structs 0 0 exIf).defs :=
+  defsOk_self exIfOut.defs (by decide)
+
+/-- the description of the run: three conditions leave `false` -/
+theorem exIf_chain : ChainRun exIfS [] (exEnv 7) [] [] 34 0 1 [exBr 1 100, exBr 2 200, exBr 3 300] [] false 3
+    [0, 1, 2, 3, 4, 10, 11, 12, 13, 14, 20, 21, 22, 23, 24] [0, 1, 2, 10, 11, 12, 20, 21, 22] [3, 4, 13, 14, 23, 24]
+    ⟨[], [exEnv 7], [], 30, []⟩ := by
+  have h0 : StepsVia exIfS.m ⟨[], [exEnv 7], [], 0, []⟩ [0, 1, 2] ⟨[.bool false], [exEnv 7], [], 3, []⟩ :=
+    .next rfl (.next rfl (.next rfl (.refl _)))
+  have h1 : StepsVia exIfS.m ⟨[], [exEnv 7], [], 10, []⟩ [10, 11, 12] ⟨[.bool false], [exEnv 7], [], 13, []⟩ :=
+    .next rfl (.next rfl (.next rfl (.refl _)))
+  have h2 : StepsVia exIfS.m ⟨[], [exEnv 7], [], 20, []⟩ [20, 21, 22] ⟨[.bool false], [exEnv 7], [], 23, []⟩ :=
+    .next rfl (.next rfl (.next rfl (.refl _)))
+  have hc := ChainRun.skip (S := exIfS) (endAddr := 34) (wp := 0) (c := 1) (cnd := (exBr 1 100).1) (ss := (exBr 1 100).2)
+    (rest := [exBr 2 200, exBr 3 300]) h0
+    (ChainRun.skip (wp := 10) (c := 2) (cnd := (exBr 2 200).1) (ss := (exBr 2 200).2) (rest := [exBr 3 300]) h1
+      (ChainRun.skip (wp := 20) (c := 3) (cnd := (exBr 3 300).1) (ss := (exBr 3 300).2) (rest := []) h2
+        (ChainRun.nil 30 4 [])))
+  exact hc
+
+/-- `ifS_trace_else` applies: the VM runs 0 → 34 through exactly these 19 pcs; the glue pcs
+3, 4, 13, 14, 23, 24, 30, 33 lie in none of the three branch bodies -/
+example : StepsVia exIfS.m ⟨[], [exEnv 7], [], 0, []⟩
+    [0, 1, 2, 3, 4, 10, 11, 12, 13, 14, 20, 21, 22, 23, 24, 30, 31, 32, 33] ⟨[], [exEnv 7], [], 34, []⟩ :=
+  (ifS_trace_else exIfS [exBr 1 100, exBr 2 200, exBr 3 300] [.let_ 11 (.int 400)] 0 0 [] (exEnv 7) [] [] [] 3 _ _ _ _
+    [31, 32] [] [(11, .int 400)] (exEnv 7) [] [] [] exIf_code exIf_defs exIf_chain
+    (.next rfl (.next rfl (.refl _)))).1
+/-- none of the 19 pcs lies in the body region of a branch -/
+example : ∀ pc ∈ [0, 1, 2, 3, 4, 10, 11, 12, 13, 14, 20, 21, 22, 23, 24, 30, 31, 32, 33],
+    ¬ InRange 5 5 pc ∧ ¬ InRange 15 5 pc ∧ ¬ InRange 25 5 pc := by
+  simp only [InRange]; decide
+/-- the trace function computes the same list -/
+example : (runTrace exIfS.m 19 ⟨[], [exEnv 7], [], 0, []⟩).1 =
+    [0, 1, 2, 3, 4, 10, 11, 12, 13, 14, 20, 21, 22, 23, 24, 30, 31, 32, 33] := by decide
+
+/-! ### non-vacuity: a 3-arm `match` taking the second arm
+
+`match x { 1 => 10, 2 => 20, _ => 30 }` with `x = 2`, compiled at address 0.  Layout: scrutinee at 0,
+tests at [1,10) (arm 0: 1–4, arm 1: 5–8, default: 9), arm blocks at [10,15), [15,20), [20,25), end 25. -/
+def exArms : List (Pat × Expr) := [(.values [.int 1], .int 10), (.values [.int 2], .int 20), (.default, .int 30)]
+def exM : Expr := .mtch (.var 10) exArms
+def exMOut : Out := compileExpr [] 0 0 exM
+def exMS : Sim :=
+  { m := { prog := exMOut.code.map (res exMOut.defs), p := exProg, ffiArity := fun _ _ => none }, labels := exMOut.defs }
+
+example : exMOut.code.length = 25 := by decide
+example : armStarts (compileExpr []) 10 4 exArms = [(10, 4), (15, 4), (20, 4)] := by decide
+theorem exM_code : CodeAt exMS.labels exMS.m.prog 0 (compileExpr exMS.m.p.structs 0 0 exM).code := by
+  show CodeAt exMOut.defs (exMOut.code.map (res exMOut.defs)) 0 exMOut.code
+  simp [CodeAt]
+theorem exM_defs : DefsOk exMS.labels (compileExpr exMS.m.p.structs 0 0 exM).defs :=
+  defsOk_self exMOut.defs (by decide)
+
+/-- the dispatch: the test of arm 0 (`2 == 1`) misses, the test of arm 1 (`2 == 2`) hits -/
+theorem exM_tests : TestsRun exMS (.int 2) [] [exEnv 2] [] 1 1 (exArms.map (·.1)) [] 1 (Label.anon 2)
+    [1, 2, 3, 4, 5, 6, 7, 8] [2, 6] [1, 3, 4, 5, 7, 8] [] := by
+  have e0 : StepsVia exMS.m ⟨[.int 2, .int 2], [exEnv 2], [], 2, []⟩ [2] ⟨[.int 1, .int 2, .int 2], [exEnv 2], [], 3, []⟩ :=
+    .next rfl (.refl _)
+  have e1 : StepsVia exMS.m ⟨[.int 2, .int 2], [exEnv 2], [], 6, []⟩ [6] ⟨[.int 2, .int 2, .int 2], [exEnv 2], [], 7, []⟩ :=
+    .next rfl (.refl _)
+  have v0 := ValsRun.litMiss (S := exMS) (sv := .int 2) (σ := []) (sc := [exEnv 2]) (K := []) (arm := Label.anon 1)
+    (wp := 1) (c := 2) (v := .int 1) (vs := []) (x := .int 1) rfl e0 rfl (ValsRun.nil 5 2 [])
+  have v1 := ValsRun.litHit (S := exMS) (sv := .int 2) (σ := []) (sc := [exEnv 2]) (K := []) (arm := Label.anon 2)
+    (wp := 5) (c := 3) (v := .int 2) (vs := []) (x := .int 2) rfl e1 rfl
+  have ht := TestsRun.miss (S := exMS) (wp := 1) (c := 1) (vs := [.int 1]) (rest := [.values [.int 2], .default]) v0
+    (TestsRun.hit (wp := 5) (c := 2) (vs := [.int 2]) (rest := [.default]) v1)
+  exact ht
+
+/-- `match_trace_E` applies: the VM runs 0 → 25 through exactly these 14 pcs and leaves `20`; the
+glue pcs 1, 3, 4, 5, 7, 8 (tests) and 15, 16, 18, 19 (arm 1's block) lie neither in arm 0's block
+[10,15) nor in arm 2's block [20,25) -/
+example : StepsVia exMS.m ⟨[], [exEnv 2], [], 0, []⟩ [0, 1, 2, 3, 4, 5, 6, 7, 8, 15, 16, 17, 18, 19]
+    ⟨[.int 20], [exEnv 2], [], 25, []⟩ :=
+  (match_trace_E exMS (.var 10) exArms 0 0 [] (exEnv 2) [] [] [] [] [] [] (.int 2) [0] 1 (Label.anon 2) _ _ _
+    (.values [.int 2]) (.int 20) 15 4 ([] :: exEnv 2) [17] [.int 20] [] (exEnv 2) [] [] exM_code exM_defs
+    (.next rfl (.refl _)) exM_tests rfl rfl rfl (.next rfl (.refl _))).1
+example : (runTrace exMS.m 14 ⟨[], [exEnv 2], [], 0, []⟩).1 = [0, 1, 2, 3, 4, 5, 6, 7, 8, 15, 16, 17, 18, 19] := by decide
+/-- none of the 14 pcs lies in the block of arm 0 or of arm 2 -/
+example : ∀ pc ∈ [0, 1, 2, 3, 4, 5, 6, 7, 8, 15, 16, 17, 18, 19], ¬ InRange 10 5 pc ∧ ¬ InRange 20 5 pc := by
+  simp only [InRange]; decide
+
 
 end AranyaV.Lang
